@@ -402,6 +402,38 @@ def rule_v11(repo):
                     bad[0][0].lineno, t, t, src(bad[0][1].ast, 60)), f.loc)
     return res
 
+def rule_v12(repo):
+    """A normaliser that works bottom-up first normalises the parts of a term (`arg_pt = rec(t.arg)`) and then decides what to do with the
+    whole.  From that point on, what it knows about a part is what the *normal form* looks like (`arg_pt.rhs`); the part as it was written
+    (`t.arg`) is out of date.  A decision taken on the old shape - "the argument is not an abstraction, so contracting cannot create a new
+    redex" - is wrong exactly when normalising changed the shape: (%f. f a) ((%g. g) (%x. x)) stays (%x. x) a, which is not normal,
+    differs from the fast evaluation, and changes when normalised again."""
+    res = RuleResult('C10.V12', 'after a part of the term was normalised, decisions look at its normal form, not at the part as written', floor=2)
+    m = repo.module(CONV)
+    for f in m.all_funcs:
+        if f.parent is None:
+            continue
+        recursive = any(isinstance(c, ast.Call) and is_name(c.func, f.name) for c in ast.walk(f.node))
+        if not recursive or not f.params():
+            continue
+        t = f.params()[0]
+        cfg = cfg_of(f.node)
+        for n in cfg.stmt_nodes(ast.Assign):
+            v = n.ast.value
+            if not (isinstance(v, ast.Call) and is_name(v.func, f.name) and len(v.args) == 1 and isinstance(v.args[0], ast.Attribute) and is_name(v.args[0].value, t) and
+                    isinstance(n.ast.targets[0], ast.Name)):
+                continue
+            part = src(v.args[0])
+            after = cfg.reach_from([b for b, _l in n.succ])
+            stale = [tn for tn in cfg.test_nodes() if tn.id in after and any(
+                isinstance(x, ast.Call) and (call_attr(x) or '').startswith('is_') and src(x.func.value) == part for x in ast.walk(tn.ast))]
+            res.add('%s :: %s :: normalised(%s)' % (CONV, f.qualname, part), not stale,
+                    'later decisions read %s.rhs' % n.ast.targets[0].id if not stale else
+                    'line %d tests `%s` after `%s` was normalised into `%s`: the decision is about the part as it was written, and is wrong when normalising '
+                    'turned it into an abstraction ((%%f. f a) ((%%g. g) (%%x. x)) is left as (%%x. x) a)' % (
+                        stale[0].lineno, src(stale[0].ast, 40), part, n.ast.targets[0].id), '%s:%d' % (CONV, stale[0].lineno if stale else n.lineno))
+    return res
+
 
 def rules(repo):
-    return [rule_v1(repo), rule_v2(repo), rule_v3(repo), rule_v4(repo), rule_v5(repo), rule_v6(repo), rule_v7(repo), rule_v8(repo), rule_v9(repo), rule_v10(repo), rule_v11(repo)]
+    return [rule_v1(repo), rule_v2(repo), rule_v3(repo), rule_v4(repo), rule_v5(repo), rule_v6(repo), rule_v7(repo), rule_v8(repo), rule_v9(repo), rule_v10(repo), rule_v11(repo), rule_v12(repo)]
